@@ -471,6 +471,39 @@ func ruleKeyArms(r *Report) {
 			}
 		}
 		h.Check(rekey, b.Name+"/Put/rekey", ar.p.Pos(b.Fn.Pos()), "overwriting a key removes the row's previous key from the lookup table", "overwriting the key of a row leaves the previous key in the lookup table: the old key still resolves (to the re-keyed row) and cannot be inserted again")
+		// … but only when the row really held a key: the value array of a deleted row is stale, so
+		// the removal must be guarded by the presence bit of the same row, tested before this
+		// arm sets it
+		if rekey {
+			sets := b.Loop.May(opPut, "presence-set")
+			guardOK := true
+			for _, d := range dels {
+				g := edgeGuarded(d.Ins.Block(), func(c ssa.Value) (bool, bool) {
+					call, isC := c.(*ssa.Call)
+					if !isC || !methodOn(&call.Call, "github.com/kelindar/bitmap", "Bitmap", "Contains") {
+						return false, false
+					}
+					if len(sets) == 0 || sets[0].Offset == nil || !sameExpr(call.Call.Args[1], sets[0].Offset) {
+						return false, false
+					}
+					// evaluated before the bit is set
+					for _, s := range sets {
+						sb, cb := s.Ins.Block(), call.Block()
+						if sb == cb && instrIndex(s.Ins) < instrIndex(call) {
+							return false, false
+						}
+						if sb != cb && reachAvoiding(sb, cb, func(x *ssa.BasicBlock) bool { return x == b.Loop.Head }, nil) {
+							return false, false
+						}
+					}
+					return true, true
+				})
+				if !g {
+					guardOK = false
+				}
+			}
+			h.Check(guardOK, b.Name+"/Put/rekey-live-only", effPos(r.P, dels), "previous key removed only when the row was present", "the previous key is removed from the lookup table without testing (before this Put sets it) the presence bit of the row: the value array of a deleted row is stale, so reusing its offset removes a key that is live again at another row")
+		}
 		// delete removes the key loaded from the row being deleted
 		ddel := b.Loop.May(opDelete, "table-delete")
 		clr := b.Loop.May(opDelete, "presence-clear")
